@@ -357,6 +357,60 @@ def gen_record(r, cfg, k, depth):
     return d
 
 
+def gen_scale(r):
+    """(desc, value) of a shape that is rare under composition but ordinary in real schemas: wide records,
+    long collections, many alternatives, deep tag stacks, deep nesting.  Counts sit around powers of two
+    and the sizes a 'first N' shortcut would pick."""
+    kind = r.choice(['wide-record', 'wide-record', 'long-of', 'long-of', 'many-alts', 'tag-stack', 'deep-of'])
+    leaf = lambda: D(r.choice(['INTEGER', 'INTEGER', 'BOOLEAN', 'OCTETSTRING', 'NULL', 'UTF8']))
+    if kind == 'wide-record':
+        n = r.choice([17, 32, 33, 40, 64, 65, 130])
+        fields, value = [], {}
+        for i in range(n):
+            d = tagged(leaf(), r.choice('IE') if i % 3 else 'I', r.choice('CCA'), i if r.random() < 0.8 else 1000 + i)
+            if d['k'] in ('BOOLEAN', 'INTEGER', 'NULL') and d['tags'][-1][0] == 'E':
+                d['tags'][-1][0] = 'I'
+            opt = r.choice(['R', 'R', 'O', 'O', 'D']) if d['k'] != 'NULL' else r.choice(['R', 'O'])
+            f = {'n': 'w%d' % i, 'd': d, 'opt': opt}
+            if opt == 'D':
+                f['dv'] = _gen_value(r, d, ValCfg(small=True))
+            fields.append(f)
+            if opt == 'R' or r.random() < 0.6:
+                value[f['n']] = _gen_value(r, d, ValCfg(small=True))
+        # distinct (class, number) pairs by construction except accidental repeats: drop duplicates
+        seen, keep = set(), []
+        for f in fields:
+            key = tuple(f['d']['tags'][-1][1:])
+            if key in seen:
+                value.pop(f['n'], None)
+                continue
+            seen.add(key)
+            keep.append(f)
+        return D(r.choice(['SEQ', 'SET']), fields=keep), value
+    if kind == 'long-of':
+        n = r.choice([31, 32, 33, 127, 128, 129, 255, 256, 257, 1024, 1025, 1100])
+        el = leaf()
+        if el['k'] == 'NULL':
+            el = D('INTEGER')
+        pool = [_gen_value(r, el, ValCfg(small=True)) for _ in range(4)]
+        return D(r.choice(['SEQOF', 'SETOF']), of=el), [r.choice(pool) for _ in range(n)]
+    if kind == 'many-alts':
+        n = r.choice([17, 32, 33, 64, 65])
+        alts = [['a%d' % i, tagged(leaf(), 'I', 'C', i)] for i in range(n)]
+        j = r.choice([0, n - 1, n - 2, n // 2, 31 % n, 32 % n])
+        return D('CHOICE', alts=alts), [alts[j][0], _gen_value(r, alts[j][1], ValCfg(small=True))]
+    if kind == 'tag-stack':
+        d = D(r.choice(['OCTETSTRING', 'UTF8', 'BITSTRING']))
+        for i in range(r.choice([3, 4, 6])):
+            d = tagged(d, 'E', r.choice('CAP'), r.choice([0, 30, 31, 127, 128, 16384]))
+        return d, _gen_value(r, d, ValCfg(small=True))
+    depth = r.choice([6, 9, 17])
+    d, v = D('INTEGER'), 5
+    for i in range(depth):
+        d, v = D(r.choice(['SEQOF', 'SETOF']), of=d), [v] * (2 if i == 0 else 1)
+    return d, v
+
+
 def gen_choice(r, cfg, depth):
     na = r.randrange(1, cfg.max_fields + 1)
     descs = []
@@ -963,7 +1017,17 @@ def jsonable(a):
         return 'h:' + a.hex()
     if isinstance(a, float):
         return repr(a)
+    if isinstance(a, int) and not isinstance(a, bool) and a.bit_length() > 4000:
+        return 'int:%s0x%x' % ('-' if a < 0 else '', abs(a))      # beyond CPython's int-to-decimal limit
     return a
+
+
+def safe_repr(x, limit=300):
+    """repr() for messages: never raises (CPython refuses to print very long ints)."""
+    try:
+        return repr(x)[:limit]
+    except Exception as e:
+        return '<unprintable %s: %s>' % (type(x).__name__, type(e).__name__)
 
 
 # ---------------------------------------------------------------------------
